@@ -23,6 +23,8 @@ type PropUnit struct {
 	// Only: function key -> regexp; obligations of that function whose name does not match are not part of
 	// this property's claim (the same function may serve several properties with different clauses)
 	Only map[string]string `json:"only,omitempty"`
+	// Except: obligations of a function (regexp on the obligation name) that belong to ANOTHER property's claim
+	Except map[string]string `json:"except,omitempty"`
 }
 
 type BoundedSpec struct {
@@ -259,6 +261,20 @@ func cmdCheck(args []string) {
 						var keep []*Obligation
 						for _, o := range fv.obls {
 							if rx.MatchString(o.Name) {
+								keep = append(keep, o)
+							}
+						}
+						fv.obls = keep
+					}
+				}
+				if re, ok := u.Except[key]; ok {
+					rx, err := regexp.Compile(re)
+					if err != nil {
+						engineFaults = append(engineFaults, "bad filter for "+key+": "+err.Error())
+					} else {
+						var keep []*Obligation
+						for _, o := range fv.obls {
+							if !rx.MatchString(o.Name) {
 								keep = append(keep, o)
 							}
 						}
